@@ -1591,7 +1591,7 @@ def slice_to_funsor(s, output=None, dim_to_name=None):
     if not isinstance(output, BintType):
         raise ValueError("Incompatible slice output: {output}")
     start, stop, step = parse_slice(s, output.size)
-    i = Variable("slice", output)
+    i = Variable("slice", Bint[len(range(start, stop, step))])
     return Lambda(i, Slice("slice", start, stop, step, output.size))
 
 
